@@ -29,6 +29,10 @@ class Same(State):
 ONE = Same(v=1)      # the one shared instance every "Same" record uses
 
 
+class CallbackFailed(Exception):
+    pass
+
+
 def _boom(lhs, rhs):
     raise RuntimeError("merge failed")
 
@@ -91,6 +95,10 @@ class MetricsDriver:
             drv.objs[sid] = m
             own, view = drv._snapshot(m)
             drv.cblog[sid].append(dict(at=drv.now, completed=bool(m.is_completed), time=m.time, own=own, view=view))
+            if sid % 3 == 0:
+                # every third callback fails after having looked: user code in a completion callback may raise, and
+                # that must neither fail the scope exit nor stop the completion of the enclosing scopes
+                raise CallbackFailed(f"completion callback of scope {sid} failed")
 
         if is_async:
             async def acb(m):
@@ -107,7 +115,8 @@ class MetricsDriver:
 
     def _obs(self, a, res="ok"):
         o = dict(a=a, cb=tuple(tuple(self.cblog[s]) for s in range(1, self.ns + 1)), res=res)
-        bad = [str(c.get("message")) + repr(c.get("exception")) for c in self.w.loop.exceptions]
+        bad = [str(c.get("message")) + repr(c.get("exception")) for c in self.w.loop.exceptions
+               if not isinstance(c.get("exception"), CallbackFailed)]
         if bad:
             o["loop_errors"] = bad
         return o
